@@ -23,12 +23,11 @@ def main() -> None:
     props = [json.loads(l)["id"] for l in open(os.path.join(ROOT, "properties.jsonl"))]
     checks = []
     na = []
-    import subprocess
-    tracked = set(subprocess.run(["git", "-C", ROOT, "ls-files", "sa/rules"], capture_output=True, text=True).stdout.split())
+    ready = set(open(os.path.join(ROOT, "tools", "ready.txt")).read().split())
     for pid in props:
         try:
-            if f"sa/rules/{pid.lower()}.py" not in tracked:
-                raise ModuleNotFoundError  # work in progress: not claimed until committed
+            if pid not in ready:
+                raise ModuleNotFoundError  # work in progress: not claimed until listed in tools/ready.txt
             mod = importlib.import_module(f"sa.rules.{pid.lower()}")
         except ModuleNotFoundError:
             na.append({"property_id": pid, "reason": NOT_APPLICABLE.get(pid, PENDING_REASON)})
